@@ -405,3 +405,64 @@ def u_csv_cells(E):
     cell = str_of_int(E, v)
     s2 = E.call(Q + '_pytype_to_string', cell, cfg)
     E.prove_value_eq('csv-cell/text-cell-accepted-as-number', s2, s, 'P', 'lemma')
+
+
+# ---------------------------------------------------------------- C07: the tools stop with a diagnostic, not a traceback
+def stub_failing_reader(E, msgs, fail_after):
+    """IpmReader that delivers `fail_after` records and then raises the library's data error for record fail_after+1"""
+    log = {'n': 0}
+
+    def rd_next(E, args, kw):
+        self = args[0]
+        i = E.cell(self).get('_g_i', 0)
+        if i < fail_after:
+            E.setf(self, '_g_i', i + 1)
+            return msgs[i]
+        ci = E.program.classes[M + 'MciIpmDataError']
+        raise PyRaise(E.instantiate(ci, [lift('Error while processing ISO8583 record')],
+                                    {'record_number': VInt(fail_after + 1), 'binary_context_data': seq_lit('bytes', b'\x00\x00\x00\x04abcd')}))
+    E.contracts[M + 'IpmReader.__next__'] = rd_next
+    E.contracts[CLI + 'get_config'] = lambda E, args, kw: E.lookup_global('config', E.program.modules['cardutil.config'])
+    E.contracts[M + 'ipm_info'] = lambda E, args, kw: E.new_dict({'isValidIPM': TRUE, 'isBlocked': TRUE, 'encoding': lift('latin1')})
+    return log
+
+
+def stdout_has(E, text):
+    for line in E.stdout:
+        if len(line) == 1 and isinstance(line[0], VSeq) and conc_str(line[0]) == text:
+            return True
+    return False
+
+
+@unit('mci_ipm_to_csv.cli_run/bad-file-gives-diagnostic', props=['C07', 'C10'], functions=[CLI + 'mci_ipm_to_csv.cli_run', CLI + 'mci_ipm_to_csv.mci_ipm_to_csv', CLI + 'mci_ipm_to_csv.dicts_to_csv',
+                                                                                           CLI + 'print_exception_details', CLI + 'print_banner', CLI + 'mci_ipm_to_csv.print_check_details'])
+def u_cli_ipm_to_csv(E):
+    """given that reading raises only the library's data error (proved for IpmReader.__next__), the tool catches it, prints the
+    operator message naming the record, and returns -1: no traceback"""
+    msgs = [E.new_dict({'MTI': lift('1144'), 'DE2': lift('4444')})]
+    stub_failing_reader(E, msgs, 1)
+    try:
+        rc = E.call(CLI + 'mci_ipm_to_csv.cli_run', in_filename=lift('bad.ipm'), out_filename=NONE, in_encoding=NONE, out_encoding=NONE,
+                    no1014blocking=FALSE, config_file=NONE, debug=FALSE)
+    except PyRaise as pr:
+        E.prove('mci_ipm_to_csv.cli_run/no-traceback(%s)' % E.exc_name(pr.exc), False, 'P')
+        return
+    E.prove('mci_ipm_to_csv.cli_run/returns-error-status', z3.BoolVal(isinstance(rc, VInt) and rc.conc() == -1), 'P')
+    E.prove('mci_ipm_to_csv.cli_run/prints-stop-banner', z3.BoolVal(stdout_has(E, '*** ERROR - processing has stopped ***')), 'P')
+    E.prove('mci_ipm_to_csv.cli_run/names-the-bad-record', z3.BoolVal(stdout_has(E, 'Error detected in record 2')), 'P')
+    E.prove('mci_ipm_to_csv.cli_run/output-file-is-input.csv', z3.BoolVal(('bad.ipm.csv', 'w') in E.ghost.get('opened', [])), 'I')
+
+
+@unit('mideu.cli_run/bad-file-gives-diagnostic', props=['C07'], functions=[CLI + 'mideu.cli_run', CLI + 'mideu.extract', CLI + 'mideu.dicts_to_csv', CLI + 'print_exception_details', CLI + 'print_banner'])
+def u_cli_mideu(E):
+    msgs = [E.new_dict({'MTI': lift('1144')})]
+    stub_failing_reader(E, msgs, 1)
+    extract = E.lookup_global('extract', E.program.modules['cardutil.cli.mideu'])
+    try:
+        rc = E.call(CLI + 'mideu.cli_run', func=extract, input=lift('bad.ipm'), sourceformat=lift('ebcdic'), no1014blocking=FALSE, loglevel=VInt(30), csvoutputfile=NONE)
+    except PyRaise as pr:
+        E.prove('mideu.cli_run/no-traceback(%s)' % E.exc_name(pr.exc), False, 'P')
+        return
+    E.prove('mideu.cli_run/returns-error-status', z3.BoolVal(isinstance(rc, VInt) and rc.conc() == -1), 'P')
+    E.prove('mideu.cli_run/prints-stop-banner', z3.BoolVal(stdout_has(E, '*** ERROR - processing has stopped ***')), 'P')
+    E.prove('mideu.cli_run/names-the-bad-record', z3.BoolVal(stdout_has(E, 'Error detected in record 2')), 'P')
